@@ -2284,6 +2284,15 @@ TopologyKernel::adjacent_halfface_in_cell(HalfFaceHandle _halfFaceHandle,
       }
     }
   }
+  if (skipped) {
+    // No other halfface of the cell contains the opposite halfedge. If the cell
+    // contains both halffaces of this face, the opposite halfface is the neighbour
+    // across this edge.
+    const HalfFaceHandle opp = opposite_halfface_handle(_halfFaceHandle);
+    for(const auto &hfh: cell(ch).halffaces()) {
+      if(hfh == opp) return opp;
+    }
+  }
   return InvalidHalfFaceHandle;
 }
 
